@@ -349,3 +349,141 @@ func docStructEq(x, y *document) bool {
 	}
 	return d == ""
 }
+
+// opTS returns the timestamp of the last local operation of p.
+func (p *docPeer) opTS() *model.Timestamp {
+	id := p.doc.GetOpID()
+	return &model.Timestamp{Era: id.Era, Lamport: id.Lamport, CUID: id.CUID}
+}
+
+// VF_Doc_C02: conflicting operations on one object key and on one array slot
+// resolve by operation timestamp, identically on both replicas - compared with
+// a reference computed from the statement (the base value was written first,
+// so either concurrent operation is newer than it).
+func VF_Doc_C02() {
+	vf.HashAbstract(true)
+	a, b := vfNewDoc("a"), vfNewDoc("b")
+	vf.Assume(a.doc.GetCUID() != b.doc.GetCUID())
+	vfDocBase(a, b)
+	where := vf.Choice("where", 2)
+	ka, kb := vf.Choice("a.kind", 2), vf.Choice("b.kind", 2) // 0 write, 1 delete
+	vf.Tag("case", string(rune('0'+where))+string(rune('0'+ka))+string(rune('0'+kb)))
+	do := func(p *docPeer, kind int, val string) {
+		var err error
+		if where == 0 {
+			if kind == 0 {
+				_, e := p.doc.PutToObject("k", val)
+				err = toErr(e)
+			} else {
+				_, e := p.doc.DeleteInObject("k")
+				err = toErr(e)
+			}
+		} else {
+			arr := child(p.doc, "arr")
+			if kind == 0 {
+				_, e := arr.UpdateManyInArray(0, val)
+				err = toErr(e)
+			} else {
+				_, e := arr.DeleteInArray(0)
+				err = toErr(e)
+			}
+		}
+		vf.Assert(err == nil, "concurrent operation succeeds locally")
+	}
+	do(a, ka, "from-a")
+	ta := a.opTS()
+	do(b, kb, "from-b")
+	tb := b.opTS()
+	opsA, opsB := a.flush(), b.flush()
+	a.receive(opsB)
+	b.receive(opsA)
+	vf.Reach("exchanged")
+	// reference
+	var want interface{}
+	present := true
+	if where == 0 { // object key: greatest timestamp wins, remove => absent
+		winnerIsA := newer(ta, tb)
+		k, v := ka, "from-a"
+		if !winnerIsA {
+			k, v = kb, "from-b"
+		}
+		if k == 1 {
+			present = false
+		} else {
+			want = v
+		}
+	} else { // array slot: deleted by anyone => stays deleted; else newest update
+		if ka == 1 || kb == 1 {
+			present = false
+		} else if newer(ta, tb) {
+			want = "from-a"
+		} else {
+			want = "from-b"
+		}
+	}
+	for _, p := range []*docPeer{a, b} {
+		root := p.doc.ToJSON().(map[string]interface{})
+		if where == 0 {
+			v, ok := root["k"]
+			vf.Assert(ok == present, "C02 a key is present iff its newest operation is a put")
+			if present {
+				vf.Assert(v == want, "C02 a key holds the value of the put with the greatest timestamp")
+			}
+		} else {
+			arr := root["arr"].([]interface{})
+			if present {
+				vf.Assert(len(arr) == 2 && arr[0] == want && arr[1] == "a1", "C02 a slot holds the value of its newest update")
+			} else {
+				vf.Assert(len(arr) == 1 && arr[0] == "a1", "C02/C04 a deleted slot stays deleted, also against a concurrent update")
+			}
+		}
+	}
+	vf.Assert(jsonDeepEq(a.doc.ToJSON(), b.doc.ToJSON()), "C01 replicas agree")
+}
+
+// VF_Doc_C04: concurrent inserts into one array at the same place appear
+// newest first, after the element they were inserted behind, exactly once, on
+// both replicas; existing elements keep their order.
+func VF_Doc_C04() {
+	vf.HashAbstract(true)
+	a, b := vfNewDoc("a"), vfNewDoc("b")
+	vf.Assume(a.doc.GetCUID() != b.doc.GetCUID())
+	vfDocBase(a, b)
+	pa, pb := vf.Choice("a.pos", 3), vf.Choice("b.pos", 3)
+	_, ea := child(a.doc, "arr").InsertToArray(pa, "ia0", "ia1")
+	ta := a.opTS()
+	_, eb := child(b.doc, "arr").InsertToArray(pb, "ib0")
+	tb := b.opTS()
+	vf.Assert(ea == nil && eb == nil, "inserts succeed")
+	// a local insert is immediately readable at its index
+	la := a.doc.ToJSON().(map[string]interface{})["arr"].([]interface{})
+	vf.Assert(la[pa] == "ia0" && la[pa+1] == "ia1", "C04 a local insert at index i is readable at index i")
+	opsA, opsB := a.flush(), b.flush()
+	a.receive(opsB)
+	b.receive(opsA)
+	vf.Reach("exchanged")
+	ja := a.doc.ToJSON().(map[string]interface{})["arr"].([]interface{})
+	jb := b.doc.ToJSON().(map[string]interface{})["arr"].([]interface{})
+	vf.Assert(jsonDeepEq(ja, jb), "C01/C04 both replicas show the same array")
+	idx := func(v string) int {
+		n, at := 0, -1
+		for i, x := range ja {
+			if x == v {
+				n++
+				at = i
+			}
+		}
+		vf.Assert(n == 1, "C04 every element is present exactly once")
+		return at
+	}
+	i0, i1, a0, a1, ib := idx("a0"), idx("a1"), idx("ia0"), idx("ia1"), idx("ib0")
+	vf.Assert(len(ja) == 5 && i0 < i1, "C04 existing elements keep their relative order")
+	vf.Assert(a0+1 == a1 || (a0 < a1 && pa == pb), "C04 a batch stays in order")
+	if pa == pb { // same place: newest first
+		if newer(ta, tb) {
+			vf.Assert(a0 < ib && a1 < ib, "C02 concurrent inserts at the same place appear newest first")
+		} else {
+			vf.Assert(ib < a0, "C02 concurrent inserts at the same place appear newest first")
+		}
+	}
+}
